@@ -27,7 +27,7 @@ import z3
 
 from vlib.common import Obligation, log
 from engines.polyid import terms as R
-from engines.polyid.interp import (Interp, Cell, Ref, IntV, Agg, UNIT, MirError, Unsupported, clone,
+from engines.polyid.interp import (Interp, Cell, Ref, IntV, BoolV, MaskV, Agg, UNIT, MirError, Unsupported, clone,
                                    strip_generics, short_type)
 from engines.polyid.prove import Ideal, prove_zero
 from engines.llsym.build import Driver
@@ -45,8 +45,8 @@ NATIVE = {
     "gf448.rs": ["gf448"],
     "gfsecp256k1.rs": ["gfsecp256k1"],
 }
-QUICK_N = [1, 2, 3, 4]
-THOROUGH_N = [1, 2, 3, 4, 5, 6, 7, 8]
+QUICK_N = [0, 1, 2, 3, 4]
+THOROUGH_N = [0, 1, 2, 3, 4, 5, 6, 7, 8]
 
 
 def patch_mir(mir):
@@ -124,6 +124,12 @@ class BInterp(Interp):
             v = a.get()
             if isinstance(v, Agg):
                 return IntV(len(v.fields), 64)
+        if op in ("AddWithOverflow", "SubWithOverflow", "MulWithOverflow") and isinstance(a, IntV) and \
+                isinstance(b, IntV) and not isinstance(a, MaskV) and not isinstance(b, MaskV):
+            # compile-time evaluated constants (gfgen's N / SUBLEN) keep their overflow checks
+            x = {"A": a.v + b.v, "S": a.v - b.v, "M": a.v * b.v}[op[0]]
+            r = IntV(x, a.bits, a.signed)
+            return Agg("tuple", [r, BoolV(r.v != x)])
         return NotImplemented
 
     def inv(self, b):
@@ -210,21 +216,23 @@ def find_bodies(mir):
 
 
 def sub_batch(mir, item):
-    """the sub-batch size constant of this body (for the 'one length above' obligation); None if not found"""
+    """the sub-batch size of this body (operand of the `(n - i) > SUBLEN` comparison), for the 'one length above'
+    obligation; None if not found"""
     nm, which = item
     kind, s, e = mir.items[nm][which]
     for ln in mir.lines[s:e]:
-        m = re.search(r"= Gt\(move _\d+, const (\d+)_usize\)", ln)
-        if m:
-            return int(m.group(1))
-        m = re.search(r"= Gt\(move _\d+, const ([\w:<>, ]+)\);", ln)
-        if m:
-            c = m.group(1).strip()
-            for cand in mir.by_last.get(c.rsplit("::", 1)[-1], []):
-                for (k2, s2, e2) in mir.items[cand]:
-                    mm = re.search(r"= const (\d+)_usize;", mir.lines[s2])
-                    if mm and cand.rsplit("::", 2)[-2:] == c.rsplit("::", 2)[-2:]:
-                        return int(mm.group(1))
+        m = re.search(r"= Gt\(move _\d+, const (.+)\);\s*$", ln)
+        if not m:
+            continue
+        c = m.group(1).strip()
+        mm = re.fullmatch(r"(\d+)_usize", c)
+        if mm:
+            return int(mm.group(1))
+        try:
+            v = BInterp(mir, near_line=s).const_value(c)
+        except (MirError, Unsupported):
+            return None
+        return v.v if isinstance(v, IntV) else None
     return None
 
 
@@ -440,7 +448,8 @@ def drivers(mir, tier, only=None):
             if only and not _selected(only, label, fname, tag):
                 continue
             for n in ns:
-                ds.append(native_driver(tag, n))
+                if n:
+                    ds.append(native_driver(tag, n))
     return ds
 
 
@@ -469,6 +478,7 @@ def work_items(mir, tier, only=None):
 
 def check_one(mir, built, tier, label, fname, item, n, sub, tags):
     base = fname.rsplit("/", 1)[-1]
+    tags = [t for t in tags if ("drv_%s_binv%d" % (t, n)) in built.drivers]
     name = "default:%s.batch_invert[n=%d]" % (base[:-3], n)
     fn = "%s::batch_invert (%s)" % (label, fname)
     t0 = time.time()
@@ -477,6 +487,9 @@ def check_one(mir, built, tier, label, fname, item, n, sub, tags):
     except (MirError, Unsupported, RecursionError) as e:
         ob = Obligation(name, "P", [fn], "slice length %d" % n, "result[i] = 1/x[i], zeros preserved")
         return [ob.unknown("interpreter: %s" % str(e)[:300])]
+    if n == 0:
+        ob = Obligation(name, "P", [fn], "empty slice", "returns without touching anything (no index or arithmetic panic)")
+        return [ob.ok("MIR executed: no statement beyond the loop test", time.time() - t0, 0, syntactic=True)]
     pats, pdesc = patterns_for(n, sub or (1 << 30), tier)
     nblocks = len(it.invs)
     ob = Obligation(name, "P", [fn],
@@ -540,3 +553,22 @@ ASSUMPTIONS = ["batch_invert: field multiplication, iszero, set_cond are the C01
 OUTSIDE = ["batch_invert for slice lengths other than those listed (no induction over the length is attempted); "
            "backends not in the default build (gf255_m51, w32, modint32, the disabled gfp256.rs); gfgen instances other "
            "than those the crate defines"]
+
+
+def static_drivers(tier, only=None):
+    """native drivers, decided before the MIR dump is available (it runs concurrently with the build): every
+    instance listed in NATIVE, the lengths of the tier and -- thorough -- the documented sub-batch sizes + 1"""
+    sub = {"gf255_m64.rs": 200, "modint.rs": 200, "gfsecp256k1.rs": 200, "gf448.rs": 100, "gfgen.rs": None}
+    ds = []
+    for base, tags in NATIVE.items():
+        for tag in (tags[:1] if tier == "quick" else tags):
+            if only and not _selected(only, "", base, tag):
+                continue
+            ns = list(lengths(tier))
+            if tier != "quick":
+                s = sub[base] if sub[base] else 1024 // F.BYTAG[tag].n
+                ns.append(s + 1)
+            for n in ns:
+                if n:
+                    ds.append(native_driver(tag, n))
+    return ds
